@@ -103,6 +103,13 @@ def run_check(tier, seed):
         write_if_changed(os.path.join(COQ, 'Spec/KernelABI.v'), kernel_spec.emit())
     except rust_abi.TranslateError as ex:
         broken.append({'kind': 'translator', 'item': 'translator/rust_abi.py', 'error': str(ex)})
+    # The strict translation failed on a conversion body: the model cannot be regenerated, so no theorem is
+    # re-checked.  Still search for a concrete failing input: translate everything else and run the real
+    # conversions / layouts / constants through the probes and the specification predicates below.
+    t_lenient = None
+    if t is None:
+        try: t_lenient = rust_abi.translate(REPO, lenient_conv=True)
+        except rust_abi.TranslateError: t_lenient = None
     # 2. Coq
     audit = None
     if t is not None:
@@ -124,8 +131,12 @@ def run_check(tier, seed):
         ev.cov['axioms'] = audit['axioms']
     # 3. probes on the implementation
     pr = None
-    if t is not None:
-        write_if_changed(os.path.join(HARNESS, 'src/gen/abi_probe_gen.rs'), gen_probe(t))
+    if t is None and t_lenient is not None:
+        t_probe = t_lenient
+    else:
+        t_probe = t
+    if t_probe is not None:
+        write_if_changed(os.path.join(HARNESS, 'src/gen/abi_probe_gen.rs'), gen_probe(t_probe))
         ok, out, bindir = cargo_build(['abi_probe'])
         if not ok:
             broken.append({'kind': 'harness-build', 'log': out[-3000:]})
@@ -168,10 +179,11 @@ def run_check(tier, seed):
             for n, v in d.items():
                 evals += 1
                 if cp['const'].get(n) != v: broken.append({'kind': 'spec-vs-gcc', 'const': n, 'spec': v, 'gcc': cp['const'].get(n)})
-    if t is not None and pr is not None:
-        renv = dict((n, fs) for n, fs in t['structs'])
+    tt = t if t is not None else t_lenient
+    if tt is not None and pr is not None:
+        renv = dict((n, fs) for n, fs in tt['structs'])
         # 4b. translator + python layout vs rustc
-        for n, fs in t['structs']:
+        for n, fs in tt['structs']:
             sz, al = L.size_align(renv, {'named': n}); evals += 1
             if pr['struct'].get(n) != [sz, al]:
                 broken.append({'kind': 'translator-vs-rustc', 'struct': n, 'translated': [sz, al], 'rustc': pr['struct'].get(n)})
@@ -180,22 +192,22 @@ def run_check(tier, seed):
                 s, a = L.size_align(renv, ft); o = L.round_up(off, a); off = o + s; evals += 1
                 if pr['field'].get((n, f)) != (o, s):
                     broken.append({'kind': 'translator-vs-rustc', 'struct': n, 'field': f, 'translated': (o, s), 'rustc': pr['field'].get((n, f))})
-        for n, ty, v, pub in t['consts']:
+        for n, ty, v, pub in tt['consts']:
             if pub:
                 evals += 1
                 if pr['const'].get(n) != v: broken.append({'kind': 'translator-vs-rustc', 'const': n, 'translated': v, 'rustc': pr['const'].get(n)})
-        for n, ty, ms in t['bitflags']:
+        for n, ty, ms in tt['bitflags']:
             for mn, v in ms:
                 evals += 1
                 if pr['flag'].get((n, mn)) != v: broken.append({'kind': 'translator-vs-rustc', 'flag': n + '::' + mn, 'translated': v, 'rustc': pr['flag'].get((n, mn))})
-        for n, vs in t['enums']:
+        for n, vs in tt['enums']:
             for vn, v in vs:
                 evals += 1
                 if pr['enum'].get((n, vn)) != v: broken.append({'kind': 'translator-vs-rustc', 'enum': n + '::' + vn, 'translated': v, 'rustc': pr['enum'].get((n, vn))})
-        arms = dict((a, b) for a, b in t['opcode_from']['arms']); disc = dict(t['enums'][0][1])
+        arms = dict((a, b) for a, b in tt['opcode_from']['arms']); disc = dict(tt['enums'][0][1])
         for nn, got in pr['opfrom'].items():
             evals += 1
-            want = disc[arms.get(nn, t['opcode_from']['default'])]
+            want = disc[arms.get(nn, tt['opcode_from']['default'])]
             if got != want: broken.append({'kind': 'translator-vs-rustc', 'opcode_from': nn, 'translated': want, 'rustc': got})
 
         # 5. the property itself, evaluated on what rustc produced (failing-input search)
@@ -226,18 +238,18 @@ def run_check(tier, seed):
                                  'first_differences': diffs, 'crate_leaves': len(rl), 'kernel_leaves': len(kleaves)})
             if len(samples) < 3: samples.append({'pair': [rs, ks], 'leaves': rl[:4], 'size': rsz})
         paired = set(p['rust'] for p in m['struct_pairs'])
-        for n, fs in t['structs']:
+        for n, fs in tt['structs']:
             if n not in paired: findings.append({'what': 'crate struct %s is not paired with any kernel struct' % n})
         for a, b in m['const_pairs']:
             evals += 1; nontriv.add(('const', a))
-            have = pr['const'].get(a, dict((c[0], c[2]) for c in t['consts']).get(a))
+            have = pr['const'].get(a, dict((c[0], c[2]) for c in tt['consts']).get(a))
             if have != kc.get(b): findings.append({'what': 'constant %s = %s but kernel %s = %s' % (a, have, b, kc.get(b))})
         for g, ps in m['bitflag_pairs'].items():
             for a, b in ps:
                 evals += 1; nontriv.add(('flag', g, a))
                 if pr['flag'].get((g, a)) != kc.get(b):
                     findings.append({'what': 'flag %s::%s = %s but kernel %s = %s' % (g, a, pr['flag'].get((g, a)), b, kc.get(b))})
-        for g, ty, ms in t['bitflags']:
+        for g, ty, ms in tt['bitflags']:
             for mn, v in ms:
                 if mn not in [a for a, b in m['bitflag_pairs'].get(g, [])] and (g + '::' + mn) not in [r['rust'] for r in m['rust_only_bitflags']]:
                     findings.append({'what': 'flag member %s::%s has no kernel counterpart in the pairing' % (g, mn)})
@@ -252,7 +264,7 @@ def run_check(tier, seed):
         for a, b in m['notify_pairs']:
             evals += 1; nontriv.add(('notify', a))
             if pr['enum'].get(('NotifyOpcode', a)) != kc.get(b): findings.append({'what': 'NotifyOpcode::%s = %s but kernel %s = %s' % (a, pr['enum'].get(('NotifyOpcode', a)), b, kc.get(b))})
-        for n, vs in t['enums']:
+        for n, vs in tt['enums']:
             pl = m['opcode_pairs'] if n == 'Opcode' else m['notify_pairs']
             for vn, v in vs:
                 if vn != m['unsupported_opcode'] and vn not in [a for a, b in pl]:
